@@ -84,12 +84,15 @@ fn meanings(s: &SgrState, cfg: &TermCfg, pal: &[Rgb3; 16]) -> Vec<String> {
 
 pub fn render(input: &str, cfg: &TermCfg) -> String {
     let pal = if cfg.win10 { anstyle_svg::WIN10_CONSOLE } else { anstyle_svg::VGA };
-    anstyle_svg::Term::new()
-        .palette(pal)
-        .fg_color(crate::adapt::color_of(cfg.fg))
-        .bg_color(crate::adapt::color_of(cfg.bg))
-        .background(cfg.background)
-        .render_svg(input)
+    // the builder calls in different orders, with the unrelated width / font setters in between and at the end
+    let t = anstyle_svg::Term::new();
+    let (fg, bg) = (crate::adapt::color_of(cfg.fg), crate::adapt::color_of(cfg.bg));
+    let t = match (input.len() + cfg.background as usize) % 3 {
+        0 => t.palette(pal).fg_color(fg).bg_color(bg).background(cfg.background),
+        1 => t.min_width_px(300).background(cfg.background).bg_color(bg).palette(pal).fg_color(fg).min_width_px(400),
+        _ => t.fg_color(fg).palette(pal).min_width_px(10).background(cfg.background).bg_color(bg).min_width_px(720),
+    };
+    t.render_svg(input)
 }
 
 /// One JSON document: input, configuration, the SVG and what it must contain.
@@ -150,7 +153,7 @@ pub fn document(id: u64, input: &str, cfg: &TermCfg) -> Result<J, String> {
     Ok(o)
 }
 
-pub const EXTRA: [&str; 22] = [
+pub const EXTRA: [&str; 25] = [
     "&", "<", ">", "\"", "'", "]]>", "&amp;", "<tspan>", "</text>", "\u{6f22}\u{5b57}", "\u{200b}", "e\u{301}", "\u{1f600}", "  ", "\u{a0}", "&#10;",
     // a line ending with two carriage returns: one belongs to the line feed, the other stays in the line
     "\r\r\n", "y\r\r\n",
@@ -158,6 +161,8 @@ pub const EXTRA: [&str; 22] = [
     "\x1b[3\n1m", "\x1b[4\t;32m",
     // a colon-form colour cut short, followed by a complete colour in the same sequence
     "\x1b[38:2:255:0;48;2;0;0;255m", "\x1b[4;48:2:9;58:2:1:2:3m",
+    // neighbouring runs that differ as written but show the same colours once reverse video is resolved
+    "\x1b[0;7mAB\x1b[0;30;47mCD", "\x1b[0;7;31;42mEF\x1b[0;32;41mGH", "\x1b[0;7;34mI\x1b[0;44;30mJ\x1b[0m",
 ];
 
 pub fn gen_input(seed: u64, i: u64, items: u64) -> String {
@@ -209,6 +214,31 @@ pub fn run(cfg: &Cfg) -> Stats {
                     }
                 }
             }
+        }
+    }
+    // one capture larger than 1 MiB with CR LF line endings, a CR sitting on byte 2^20 - 1 (block sizes inside the renderer)
+    if cfg.tier != Tier::Tiny && pi == 0 {
+        let mut doc = String::from("Z");
+        for l in 0..16_500u32 {
+            let styled = l % 97 == 0;
+            let body = format!("{:062}", l);
+            if styled {
+                doc.push_str("\x1b[32m");
+                doc.push_str(&body[9..]);
+                doc.push_str("\x1b[0m");
+            } else {
+                doc.push_str(&body);
+            }
+            doc.push_str("\r\n");
+        }
+        assert_eq!(doc.as_bytes()[(1 << 20) - 1], b'\r', "harness: the carriage return is not on the block boundary");
+        let tc = make_cfg(3);
+        st.eval();
+        st.nontrivial_hash(hash64(doc.as_bytes()));
+        st.count("documents_larger_than_1_mib");
+        match document(2_000_000_000, &doc, &tc) {
+            Ok(d) => writeln!(out, "{}", d.to_string()).expect("write"),
+            Err(p) => st.viol("c14:panic", format!("render_svg panicked: {p}"), Case::new("c14").b(&doc.as_bytes()[..200]).n(3)),
         }
     }
     let mut i = pi;
